@@ -3,7 +3,7 @@ import json
 import os
 import vlib
 
-PROPS = ['Rangers.Props.C07', 'Rangers.Props.C07Rlp', 'Rangers.Props.C07Conv', 'Rangers.Props.C07Facts']
+PROPS = ['Rangers.Props.C07', 'Rangers.Props.C07Rlp', 'Rangers.Props.C07Conv', 'Rangers.Props.C07Secp', 'Rangers.Props.C07Facts']
 DRIVERS = ['C07']
 META = dict(
     level='proof',
